@@ -350,7 +350,7 @@ func runCase(name string, init int, steps []stepJ) (caseJ, error) {
 				return caseJ{}, err
 			}
 			// until RescanFinished, or the rescan gives up
-			deadline := time.Now().Add(4 * time.Second)
+			deadline := time.Now().Add(15 * time.Second)
 			for time.Now().Before(deadline) {
 				r.mu.Lock()
 				fin := false
@@ -397,7 +397,7 @@ func runCase(name string, init int, steps []stepJ) (caseJ, error) {
 		// wait until the client has caught up (its best block is the node's
 		// tip), or - for a step the height-based poller cannot see - a grace
 		// period.
-		deadline := time.Now().Add(3 * time.Second)
+		deadline := time.Now().Add(12 * time.Second)
 		if !so.Visible {
 			deadline = time.Now().Add(60 * time.Millisecond)
 		}
